@@ -10,6 +10,8 @@ amplitudes) is a deterministic function of seeds contained in the spec.
 from pathlib import Path
 from types import SimpleNamespace
 
+import os
+
 import numpy as np
 from hypothesis import strategies as st
 
@@ -111,13 +113,18 @@ def positions(draw, nc):
     return [pos[i] for i in perm]
 
 
+SYMLINKABLE = ['spike_clusters.npy', 'spike_templates.npy', 'templates.npy', 'amplitudes.npy',
+               'spike_times.npy', 'channel_positions.npy', 'pc_features.npy', 'whitening_mat.npy',
+               'spikes.clusters.npy', 'spikes.templates.npy', 'templates.waveforms.npy']
+
+
 @st.composite
 def dataset_spec(draw, naming=None, dense=None, raw=None, curated=None, features=None,
                  tfeatures=None, whitening=None, amplitudes=None, clusters_file=None,
                  min_nc=2, max_nc=10, max_nt=6, max_ns=40, shanks=None, nan=False,
                  merge_ready=False, raw_backends=('flat', 'flat', 'npy', 'cbin'),
                  full_feature_rows=None, int_templates=None, probe_labels=False, min_nt=2,
-                 big_nt=None, scales=None, footprints=False, raw_parent=False):
+                 big_nt=None, scales=None, footprints=False, raw_parent=False, symlinks=False):
     ns = draw(st.integers(2, 12) | st.integers(2, max_ns))
     nt = draw(st.integers(min_nt, big_nt or max_nt))
     nc = draw(st.integers(min_nc, max_nc))
@@ -131,6 +138,10 @@ def dataset_spec(draw, naming=None, dense=None, raw=None, curated=None, features
             'tmpl_dtype': draw(st.sampled_from(ID_DTYPES)),
             'clu_dtype': draw(st.sampled_from(ID_DTYPES)),
             'seed': draw(st.integers(0, 10 ** 6))}
+    if symlinks and draw(st.integers(0, 3)) == 0:
+        # files kept elsewhere (annexed / shared storage) and linked into the dataset directory
+        spec['symlinks'] = draw(st.lists(st.sampled_from(SYMLINKABLE), min_size=1, max_size=4,
+                                         unique=True))
     # spikes
     spec['samples'] = sorted(draw(st.lists(st.integers(0, n_raw - 1), min_size=ns, max_size=ns)))
     nused = draw(st.sampled_from([1] + list(range(2, nt + 1)) * 3))
@@ -513,6 +524,15 @@ def build(spec, dirpath, write_params=True):
             for k, v in T.params.items():
                 f.write('%s = %r\n' % (k, v))
     T.params_path = d / 'params.py'
+    if spec.get('symlinks'):
+        store = d.parent / ('annex of ' + d.name)
+        store.mkdir(exist_ok=True)
+        T.symlinked = []
+        for name in spec['symlinks']:
+            if (d / name).is_file() and not (d / name).is_symlink():
+                os.replace(d / name, store / name)
+                os.symlink(str(store / name), str(d / name))
+                T.symlinked.append(name)
     return T
 
 
